@@ -147,7 +147,7 @@ impl Knobs {
     }
     pub fn swarm(r: &mut Rng) -> Self {
         Knobs {
-            max_depth: *r.pick(&[2usize, 3, 4, 6, 8]),
+            max_depth: *r.pick(&[2usize, 3, 4, 6, 8, 8, 14, 20]),
             max_nodes: *r.pick(&[8usize, 20, 40, 80, 200]),
             max_len: *r.pick(&[1usize, 2, 4, 8, 17]),
             max_str: *r.pick(&[0usize, 3, 12, 40, 130]),
@@ -597,4 +597,90 @@ pub fn container_chain(r: &mut Rng, depth: usize) -> TV {
         };
     }
     v
+}
+
+/// A deep "spine" through the recursive fields of a struct type: at every level one
+/// struct-valued field (directly, through a list or through a map value) leads to the next
+/// level; the other fields are drawn as usual but kept shallow.
+pub fn spine(sc: &Schema, r: &mut Rng, name: &str, depth: usize) -> TV {
+    let Some(def) = sc.get(name).cloned() else { return TV::Struct(vec![]) };
+    let mut fs: Vec<(i16, TV)> = vec![];
+    // required / default scalar fields so that the level itself decodes
+    for f in &def.fields {
+        if !is_deep(&f.ty) && (f.req != Req::Optional || r.chance(1, 3)) {
+            let mut cx = GenCtx::new(r, Knobs::small());
+            fs.push((f.id, cx.of_ty(sc, &Evolve::none(), &f.ty, 3)));
+        }
+    }
+    if depth > 0 {
+        let rec: Vec<&crate::corpus_def::Field> = def
+            .fields
+            .iter()
+            .filter(|f| match &f.ty {
+                Ty::Struct(n) => sc.get(n).map(|d| d.kind == Kind::Struct).unwrap_or(false) && is_recursive(sc, n),
+                Ty::List(e) | Ty::Set(e) => matches!(&**e, Ty::Struct(n) if is_recursive(sc, n)),
+                Ty::Map(_, v) => matches!(&**v, Ty::Struct(n) if is_recursive(sc, n)),
+                _ => false,
+            })
+            .collect();
+        if !rec.is_empty() {
+            let f = (*r.pick(&rec)).clone();
+            let v = match &f.ty {
+                Ty::Struct(n) => spine(sc, r, n, depth - 1),
+                Ty::List(e) | Ty::Set(e) => {
+                    let Ty::Struct(n) = &**e else { unreachable!() };
+                    let inner = spine(sc, r, n, depth - 1);
+                    if matches!(f.ty, Ty::List(_)) { TV::List(T_STRUCT, vec![inner]) } else { TV::Set(T_STRUCT, vec![inner]) }
+                }
+                Ty::Map(k, v) => {
+                    let Ty::Struct(n) = &**v else { unreachable!() };
+                    let inner = spine(sc, r, n, depth - 1);
+                    let key = {
+                        let mut cx = GenCtx::new(r, Knobs::small());
+                        cx.of_ty(sc, &Evolve::none(), k, 3)
+                    };
+                    TV::Map(wire_type(k), T_STRUCT, vec![(key, inner)])
+                }
+                _ => unreachable!(),
+            };
+            let pos = r.below(fs.len() as u64 + 1) as usize;
+            fs.insert(pos, (f.id, v));
+        }
+    }
+    fs.sort_by_key(|x| x.0);
+    TV::Struct(fs)
+}
+
+/// Can a value of struct `name` contain another value of a struct type that leads back to it?
+pub fn is_recursive(sc: &Schema, name: &str) -> bool {
+    fn reach(sc: &Schema, from: &str, target: &str, seen: &mut Vec<String>) -> bool {
+        if seen.iter().any(|s| s == from) {
+            return false;
+        }
+        seen.push(from.to_string());
+        let Some(d) = sc.get(from) else { return false };
+        fn names(t: &Ty, out: &mut Vec<&'static str>) {
+            match t {
+                Ty::Struct(n) => out.push(n),
+                Ty::List(e) | Ty::Set(e) => names(e, out),
+                Ty::Map(k, v) => {
+                    names(k, out);
+                    names(v, out)
+                }
+                Ty::Alias(_, i) => names(i, out),
+                _ => {}
+            }
+        }
+        for f in &d.fields {
+            let mut ns = vec![];
+            names(&f.ty, &mut ns);
+            for n in ns {
+                if n == target || reach(sc, n, target, seen) {
+                    return true;
+                }
+            }
+        }
+        false
+    }
+    reach(sc, name, name, &mut vec![])
 }
